@@ -136,8 +136,11 @@ let check_line (line : string) : unit =
           (* C14/C12 epilogue: a thread-local system panicking inside wait() *)
           if param "tlf" <> "-" && param "tlf" <> "" && get "fe1p" <> "" then begin
             let f = int_of_string (param "tlf") in
-            let rec upto = function [] -> [] | x :: r -> if x = f then [x] else x :: upto r in
-            if ints (get "fe1") <> upto ttags || get "fe1p" <> "1" then oracle "tl_panic_contained";
+            (* the thread-local pass with a fault is the faulty group of the model (Fault.v fgroup: front to back until the
+               first panic; FaultProps: panic iff a listed system is reached, nothing behind it runs) *)
+            let (fevs, panics) = fgroup [n_of_int f] (List.map n_of_int ttags) in
+            let upto _ = List.filter_map (function FF t -> Some (int_of_n t) | _ -> None) fevs in
+            if ints (get "fe1") <> upto ttags || (get "fe1p" = "1") <> panics then oracle "tl_panic_contained";
             if ints (get "fe2") <> ttags || get "fe2p" <> "0" then oracle "next_dispatch";
             if get "fe3p" <> "0" || List.sort compare (ints (get "fe3")) <> List.sort compare model_order then oracle "setup_visits";
             let parse_runs s = if s = "" then [] else List.map (fun kv -> match split_on ':' kv with [a; b] -> (int_of_string a, int_of_string b) | _ -> (-1, -1)) (split_on ',' s) in
